@@ -2,7 +2,7 @@ SPECIFICATION Spec
 CONSTANTS
   MaxSegs = 2
   MaxAtoms = 1
-  Atoms = {"word", "lflageq"}
+  Atoms = {"lflageq", "dash"}
   MCSemis = {"none", "both"}
   MCBlocks = {"if"}
   Deviations = {}
